@@ -406,6 +406,13 @@ func (f *RollingFileLogger) Start() error {
 	}
 }
 
+// defaultRollingFileLayout returns the layout used by the file appenders of a
+// RollingFileLogger that is configured without a logger-level layout; it is
+// the same default the appender plugins declare (TextLayout).
+func defaultRollingFileLayout() Layout {
+	return &TextLayout{BaseLayout: BaseLayout{FileLineLength: 48}}
+}
+
 // initRollingFileLogger is a helper to configure appenders for RollingFileLogger.
 func initRollingFileLogger(
 	f *RollingFileLogger,
@@ -423,6 +430,7 @@ func initRollingFileLogger(
 	appenders := []*AppenderRef{
 		{
 			Appender: &RollingFileAppender{
+				Layout:   defaultRollingFileLayout(),
 				FileDir:  f.FileDir,
 				FileName: f.FileName,
 				Rotation: f.Rotation,
@@ -439,6 +447,7 @@ func initRollingFileLogger(
 	if f.Separate {
 		appenders = append(appenders, &AppenderRef{
 			Appender: &RollingFileAppender{
+				Layout:   defaultRollingFileLayout(),
 				FileDir:  f.FileDir,
 				FileName: f.FileName + ".wf",
 				Rotation: f.Rotation,
